@@ -126,16 +126,22 @@ def variable_domain_signature(spec: Any) -> Dict[str, Any]:
 def compute_node_semantic_id(preproc_meta: Dict[str, Any]) -> str:
     """Return a deterministic fingerprint for preprocessor metadata."""
 
-    payload = _strip_ui_only(preproc_meta)
-
-    def _canonicalize(obj: Any) -> Any:
-        if isinstance(obj, dict):
-            return {k: _canonicalize(v) for k, v in obj.items() if k != "expr"}
-        if isinstance(obj, list):
-            return [_canonicalize(v) for v in obj]
-        return obj
-
-    canonical = _canonicalize(payload)
+    # UI-only blocks sit at the top level of the metadata and raw expression text sits in
+    # ``param_expressions[<parameter>]["expr"]``.  Strip exactly those positions: variable and
+    # parameter names are chosen by the user and may themselves be ``expr`` or a UI-only name.
+    canonical = {
+        key: value for key, value in preproc_meta.items() if key not in _UI_ONLY_KEYS
+    }
+    param_expressions = canonical.get("param_expressions")
+    if isinstance(param_expressions, dict):
+        canonical["param_expressions"] = {
+            name: (
+                {k: v for k, v in record.items() if k != "expr"}
+                if isinstance(record, dict)
+                else record
+            )
+            for name, record in param_expressions.items()
+        }
     payload = json.dumps(canonical, sort_keys=True, separators=(",", ":"))
     return hashlib.sha256(
         f"semantiva:node-sem-v1:{payload}".encode("utf-8")
